@@ -6,6 +6,7 @@ import DaskModel.Model.Creation
 import DaskModel.Model.Structural
 import DaskModel.Model.ShufflePlan
 import DaskModel.Model.ReshapeRechunk
+import DaskModel.Model.StructuralOps
 import DaskModel.Model.Counting
 import DaskModel.Model.CoarsenAlign
 import DaskModel.Model.HistogramDD
@@ -430,6 +431,74 @@ def hBlocksFlat : Handler := handler fun args =>
   | [dims, flat] => do pure (encIntss (Dask.Reshape.blocksFlat 1 (← dims.toNatss?) (← flat.toInts?)))
   | _ => none
 
+/-- all the blocks of a grid, as nested lists -/
+def gridBlocks (g : Grid Int) : SExp :=
+  .list ((List.range g.rc.length).map (fun i => .list ((List.range g.cc.length).map (fun j =>
+    encIntss ((List.range (g.rc.getD i 0)).map (fun r => (List.range (g.cc.getD j 0)).map (fun s => g.blk i j r s)))))))
+
+def encGrid (g : Grid Int) : SExp := .list [SExp.ofNats g.rc, SExp.ofNats g.cc, gridBlocks g]
+
+/-- `(grid_op op k (rc…) (cc…) ((row…)…))` ↦ `(rc' cc' blocks)`: the block plans of transpose / flip / rot90 / tril / triu
+    applied to the matrix cut by `rc × cc` -/
+def hGridOp : Handler := handler fun args =>
+  match args with
+  | [op, k, rc, cc, rows] => do
+    let k ← k.toInt?
+    let rc ← rc.toNats?
+    let cc ← cc.toNats?
+    let rows ← (← rows.toList?).mapM SExp.toInts?
+    let g : Grid Int := Grid.ofFn rc cc (fun p q => (rows.getD p []).getD q 0)
+    match op with
+    | .sym "transpose" => pure (encGrid g.transpose)
+    | .sym "flip0" => pure (encGrid g.flip0)
+    | .sym "flip1" => pure (encGrid g.flip1)
+    | .sym "rot90" => pure (encGrid (g.rot90 (k % 4).toNat))
+    | .sym "tril" => pure (encGrid (g.tril 0 k))
+    | .sym "triu" => pure (encGrid (g.triu 0 k))
+    | _ => none
+  | _ => none
+
+/-- `(stack_op axis (cs…) ((array…)…))` ↦ grid of `stack` of 1-d arrays chunked `cs` along a new first (0) / last (1) axis;
+    `(bcast_rows (rows…) (cs…) (xs…))`, `(bcast_len1 (new…) x)` ↦ `broadcast_to` plans -/
+def hStackOp : Handler := handler fun args =>
+  match args with
+  | [axis, cs, arrs] => do
+    let axis ← axis.toNat?
+    let cs ← cs.toNats?
+    let arrs ← (← arrs.toList?).mapM SExp.toInts?
+    let blk := fun k => (Vec.ofFn cs (fun q => (arrs.getD k []).getD q 0)).blk
+    pure (encGrid (if axis = 0 then stackRows arrs.length cs blk else stackCols arrs.length cs blk))
+  | _ => none
+
+def hBcastRows : Handler := handler fun args =>
+  match args with
+  | [rows, cs, xs] => do
+    let xs ← xs.toInts?
+    pure (encGrid (broadcastRows (← rows.toNats?) (Vec.ofFn (← cs.toNats?) (fun q => xs.getD q 0))))
+  | _ => none
+
+def hBcastLen1 : Handler := handler fun args =>
+  match args with
+  | [new, x] => do
+    let new ← new.toNats?
+    let x ← x.toInt?
+    let v := broadcastLen1 new (Vec.ofFn [1] (fun _ => x))
+    pure (.list [SExp.ofNats v.cs, encIntss ((List.range v.cs.length).map (fun b => (List.range (v.cs.getD b 0)).map (v.blk b)))])
+  | _ => none
+
+/-- `(list_op op r ((block…)…))` ↦ blocks of `flip` / `tile` along one axis -/
+def hListOp : Handler := handler fun args =>
+  match args with
+  | [op, r, blocks] => do
+    let r ← r.toNat?
+    let blocks ← (← blocks.toList?).mapM SExp.toInts?
+    match op with
+    | .sym "flip" => pure (encIntss (flipBlocks blocks))
+    | .sym "tile" => pure (encIntss (tileBlocks r blocks))
+    | .sym "diff" => pure (SExp.ofInts (diffN r blocks.flatten))
+    | _ => none
+  | _ => none
+
 
 
 /-! ### C27 counting -/
@@ -677,6 +746,7 @@ def table : List (String × Handler) := [
   ("expand_tuple", hExpandTuple), ("contract_tuple", hContractTuple), ("lower_dim", hLowerDim),
   ("shuffle_plan", hShufflePlan), ("take_plan", hTakePlan),
   ("reshape_rechunk", hReshapeRechunk), ("reshape_check", hReshapeCheck), ("blocks_flat", hBlocksFlat),
+  ("grid_op", hGridOp), ("stack_op", hStackOp), ("bcast_rows", hBcastRows), ("bcast_len1", hBcastLen1), ("list_op", hListOp),
   ("arange", hArange), ("linspace", hLinspace), ("eye", hEye), ("diag", hDiag),
   ("normalize", hNormalize), ("blockdims", hBlockdims), ("intersect1d", hIntersect),
   ("old_to_new", hOldToNew), ("rechunk1d", hRechunk1d), ("divide_to_width", hDivide),
